@@ -113,14 +113,6 @@ pub open spec fn headers_same(flat: Seq<BigUint>, hs: Seq<ContinuousPageHeader>)
     }
 }
 
-/// ASSUMED contract of `impl From<Vec<usize>> for DynamicParams` (crates/air/src/dynamic.rs): panics unless 340 values
-/// are supplied (its `assert_eq!`), assigns them to the fields in declaration order.
-#[verifier::external_body]
-pub fn dynamic_params_from(params: Vec<usize>) -> (r: DynamicParams)
-    requires params@.len() == 340,
-    ensures dynamic_params_seq(&r).len() == 340, forall|i: int| 0 <= i < 340 ==> #[trigger] dynamic_params_seq(&r)[i] == params@[i] as nat,
-{ unimplemented!() }
-
 //@repo cli/src/transform.rs trait TransformTo props=C19
 pub trait TransformTo<T> /*+*/: Sized/*-*/ {
     /*+*/spec fn same_as(self, t: T) -> bool;/*-*/
